@@ -155,8 +155,10 @@ def judge(spec, chosen, label=''):
         calls += 1
 
     def site():
+        """(site, value class) blamed for a wrong exception: prefer values without an ordering (complex, ...)"""
         if outs:
-            n, v = outs[0]
+            pref = [(n, v) for n, v in outs if v.vclass in ('complex', 'unordered')] or outs
+            n, v = pref[0]
             o = spec.by_name.get(n)
             s = o.kind if (o is not None and o.kind != 'plain') else '%s.%s' % (cname, n)
             return s, v.vclass
